@@ -28,7 +28,7 @@ def run(pid, tier, seed):
         ("members", {"Depth": 4 if q else 5, "Ops": tla_set(["make_enum", "make_class", "make_lambda", "make_requires"] + MEMBERS),
                      "Levels": tla_set([3]), "Targets": '"some"', "Record": "TRUE"}),
     ]
-    tdir = os.path.join(vlib.BUILD, "traces")
+    tdir = vlib.trace_dir()
     os.makedirs(tdir, exist_ok=True)
     tps = []
     for k, deep in enumerate([0, 1]):
